@@ -71,6 +71,24 @@ func (vc *VC) scriptHead() string {
 		sb.WriteString(d)
 		sb.WriteString("\n")
 	}
+	// typing of dynamic values: the payload of an integer box lies in the range of its Go type
+	var intBoxes []*dynCtor
+	for _, k := range vc.S.dynOrder {
+		c := vc.S.dyn[k]
+		if _, _, ok := intRange(c.typ); ok {
+			intBoxes = append(intBoxes, c)
+		}
+	}
+	if len(intBoxes) > 0 {
+		for _, d := range vc.decls {
+			if strings.HasPrefix(d, "(declare-const ") && strings.HasSuffix(d, " Dyn)") {
+				name := strings.TrimSuffix(strings.TrimPrefix(d, "(declare-const "), " Dyn)")
+				for _, c := range intBoxes {
+					fmt.Fprintf(&sb, "(assert (=> ((_ is %s) %s) %s))\n", c.ctor, name, inRange(c.typ, app(c.acc, name)))
+				}
+			}
+		}
+	}
 	return sb.String()
 }
 
@@ -238,16 +256,18 @@ func solveAll(rs []*Result, sec int, two bool, workers int) {
 						}
 					}
 					os.Remove(fileQ)
-					if r.Status == "unknown" {
+					if r.Status == "unknown" || r.Candidate {
+						// the relaxation did not prove it: the other solvers get the full query; a candidate
+						// model from the relaxation is kept only if none of them decides
 						for _, sp := range solvers[1:] {
 							st, out, ms := runSolver(sp, file, sec)
 							total += ms
 							if st == "unsat" {
-								r.Status, r.Solver = "unsat", sp.name
+								r.Status, r.Solver, r.Candidate, r.Model = "unsat", sp.name, false, ""
 								break
 							}
 							if st == "sat" {
-								r.Status, r.Solver, r.Model = "sat", sp.name, out
+								r.Status, r.Solver, r.Model, r.Candidate = "sat", sp.name, out, false
 								break
 							}
 						}
